@@ -162,6 +162,15 @@ Theorem Gen_write_sites_covered : write_sites_covered_b = true.
 Proof. exact gen_write_sites_covered. Qed.
 Print Assumptions Gen_write_sites_covered.
 
+(* the keys of the exec / KRM-function plugin protocol (kustomize.config.k8s.io/id, needs-hash, behavior) are
+   allow-listed, i.e. not among the keys krusty.Run strips, ONLY because the protocol itself takes them off again: the
+   translator checks that each removal is evaluated unconditionally for every resource read back / generated
+   (a removal moved into a branch - e.g. removeIDAnnotation only for resources whose id the old map already holds -
+   makes this fail; the build oracles then also find the leaking key with an exec function that renames a resource) *)
+Theorem Gen_plugin_protocol_removed : plugin_protocol_removed_b = true.
+Proof. exact gen_plugin_protocol_removed. Qed.
+Print Assumptions Gen_plugin_protocol_removed.
+
 Theorem Gen_requested_survive : requested_survive_b = true.
 Proof. exact gen_requested_survive. Qed.
 Print Assumptions Gen_requested_survive.
